@@ -183,6 +183,8 @@ package ledger
 //@   property C04
 //@   local tx *xldgpb.Transaction
 //@   at Ledger.queryBlock assert reads_the_stored_block_with_its_transactions: bytesEq($0, blockID) && $1
+//@   nocall Ledger.QueryBlock not_from_the_block_cache
+//@   nocall Ledger.fetchBlock not_from_the_header_cache
 //@   at Batch.Put assert record_rewritten_with_the_joining_block: recv == batchWrite && str($0) == xldgpb.ConfirmedTablePrefix + str(tx.Txid) && tx.Blockid == blockID
 //@   ensures [C06] no_direct_writes: kvDirect == old(kvDirect) && kvWrites == old(kvWrites)
 //@   loop 1 invariant [C06] nothing_written_yet: kvDirect == old(kvDirect) && kvWrites == old(kvWrites)
